@@ -166,7 +166,11 @@ def handleCrew (j : Json) : Json :=
           match after.find? (fun p => p.1 == mid) with
           | none => false
           | some (_, ma) =>
-            if addressees.contains mid then
+            -- (a machine that has no spec yet is inert: it counts nothing; and only the relay
+            -- machines — specs "spec0", "spec1", … of the generator — keep the counter this is read off)
+            if (getObj? mb "src").isNone || (getObj? mb "src") == some Json.null then ma.compress == mb.compress
+            else if !((getStr mb "src").startsWith "spec") then true
+            else if addressees.contains mid then
               nOf ma == nOf mb + 1 || nodeOf ma == "error" || nodeOf mb == "error"
             else ma.compress == mb.compress)
       else true
